@@ -187,6 +187,160 @@ theorem extend_noop (baseDefs : List TypeDef) (baseDirs : List DirDef) (live : L
     | succ k ih => intro acc; rw [List.replicate_succ, List.foldlM_cons]; simp only [collectExtStep, pure, Except.pure, bind, Except.bind]; exact ih acc
   simp [extendSchemaPublic, collectExtensions, hf, bind, Except.bind, filterTargets, pure, Except.pure]
 
+/-! ### `build_schema`'s extension pass IS the public function (non-strict, same document) -/
+
+theorem typeExtensions_eq_filter (live : Live) (doc : Doc) :
+    typeExtensions live doc = (typeExts doc).filter (fun e => live.hasType e.name) := by
+  induction doc with
+  | nil => rfl
+  | cons d ds ih =>
+    cases d with
+    | ext e =>
+      have h1 : typeExts (.ext e :: ds) = e :: typeExts ds := rfl
+      rw [h1, List.filter_cons, ← ih]
+      unfold typeExtensions Live.hasType
+      rw [List.filterMap_cons]
+      by_cases hc : (isDefaultName e.name || live.types.any (fun x => x.name == e.name)) = true
+      · simp only [hc, if_true]
+      · simp only [hc, if_false]; rfl
+    | type t => simpa [typeExtensions, typeExts] using ih
+    | directive t => simpa [typeExtensions, typeExts] using ih
+    | schema t => simpa [typeExtensions, typeExts] using ih
+    | schemaExt t => simpa [typeExtensions, typeExts] using ih
+    | other => simpa [typeExtensions, typeExts] using ih
+
+private theorem filterTargets_lax_nil (ht : String → Bool) : ∀ (es : List TypeDef),
+    filterTargets ht false [] es = .ok (es.filter fun e => ht e.name) := by
+  intro es
+  induction es with
+  | nil => rfl
+  | cons x xs ih =>
+    simp only [filterTargets, List.any_nil, Bool.false_or, List.filter_cons]
+    cases ht x.name <;> simp [ih, bind, Except.bind, pure, Except.pure]
+
+private theorem foldl_lax_self (live : Live) : ∀ (doc : Doc) (acc : ExtCollected),
+    (∀ t ∈ typeDefs doc, live.hasType t.name = true) → (∀ d ∈ dirDefs doc, live.hasDirective d.name = true) →
+    doc.foldlM (collectExtStep live.hasType live.hasDirective false) acc
+      = .ok { acc with schemaExts := acc.schemaExts ++ schemaExtensions doc, typeExts := acc.typeExts ++ typeExts doc } := by
+  intro doc
+  induction doc with
+  | nil => intro acc _ _; simp [schemaExtensions, typeExts, pure, Except.pure]
+  | cons d ds ih =>
+    intro acc hT hD
+    have hT' : ∀ t ∈ typeDefs ds, live.hasType t.name = true := fun t ht => hT t (by
+      cases d <;> simp_all [typeDefs])
+    have hD' : ∀ t ∈ dirDefs ds, live.hasDirective t.name = true := fun t ht => hD t (by
+      cases d <;> simp_all [dirDefs])
+    rw [List.foldlM_cons]
+    cases d with
+    | type t =>
+      have : live.hasType t.name = true := hT t (by simp [typeDefs])
+      simp only [collectExtStep, this, if_true, Bool.false_eq_true, if_false, pure, Except.pure, bind, Except.bind]
+      rw [ih acc hT' hD']; simp [schemaExtensions, typeExts]
+    | directive t =>
+      have : live.hasDirective t.name = true := hD t (by simp [dirDefs])
+      simp only [collectExtStep, this, if_true, Bool.false_eq_true, if_false, pure, Except.pure, bind, Except.bind]
+      rw [ih acc hT' hD']; simp [schemaExtensions, typeExts]
+    | schema t =>
+      simp only [collectExtStep, Bool.false_eq_true, if_false, pure, Except.pure, bind, Except.bind]
+      rw [ih acc hT' hD']; simp [schemaExtensions, typeExts]
+    | other =>
+      simp only [collectExtStep, pure, Except.pure, bind, Except.bind]
+      rw [ih acc hT' hD']; simp [schemaExtensions, typeExts]
+    | ext e =>
+      simp only [collectExtStep, pure, Except.pure, bind, Except.bind]
+      rw [ih _ hT' hD']; simp [schemaExtensions, typeExts]
+    | schemaExt e =>
+      simp only [collectExtStep, pure, Except.pure, bind, Except.bind]
+      rw [ih _ hT' hD']; simp [schemaExtensions, typeExts]
+
+/-- on the document the schema was built from, the non-strict collection skips every definition and keeps exactly the
+    extension blocks `Sdl.typeExtensions` / `Sdl.schemaExtensions` select -/
+theorem collect_lax_self (live : Live) (doc : Doc)
+    (hT : ∀ t ∈ typeDefs doc, live.hasType t.name = true) (hD : ∀ d ∈ dirDefs doc, live.hasDirective d.name = true) :
+    collectExtensions live doc false
+      = .ok { schemaExts := schemaExtensions doc, typeDefs := [], dirDefs := [], typeExts := typeExtensions live doc } := by
+  unfold collectExtensions
+  rw [foldl_lax_self live doc {} hT hD]
+  simp only [bind, Except.bind, List.nil_append]
+  rw [filterTargets_lax_nil, typeExtensions_eq_filter]
+  rfl
+
+/-- **the extension pass of `build_schema` is the public `extend_schema(schema, document, strict=False)`** on the same
+    document (as in the code, where `build_schema` calls `extend_schema`): one returns a schema iff the other does, and
+    it is the same schema.  (Only the ORDER in which the two models meet a rejection differs.) -/
+theorem extendSchema_is_public (doc : Doc) (live r : Live)
+    (hT : ∀ t ∈ typeDefs doc, live.hasType t.name = true) (hD : ∀ d ∈ dirDefs doc, live.hasDirective d.name = true) :
+    extendSchema (Env.of (typeDefs doc)) live doc [] = .ok r ↔
+    extendSchemaPublic (typeDefs doc) (directiveDefs doc) live doc false = .ok r := by
+  have hdir : ∀ eX, reDefaultDirective (Env.of (typeDefs doc)) eX doc
+      = reDefaultDirectiveIn (Env.of (typeDefs doc)) eX (directiveDefs doc) := fun eX => by funext d; rfl
+  have hcomm : ((schemaExtensions doc).isEmpty && (typeExtensions live doc).isEmpty) = ((typeExtensions live doc).isEmpty && (schemaExtensions doc).isEmpty) :=
+    Bool.and_comm _ _
+  constructor
+  · intro h
+    unfold extendSchema at h
+    simp only [] at h
+    unfold extendSchemaPublic
+    rw [collect_lax_self live doc hT hD]
+    simp only [bind, Except.bind, List.isEmpty_nil, Bool.and_true, hcomm]
+    split at h
+    · rename_i hs
+      simp only [hs, if_true]; exact h
+    · rename_i hs
+      simp only [hs, if_false]
+      obtain ⟨_, hB, h⟩ := bind_ok _ _ _ h
+      obtain ⟨c, h1, h⟩ := bind_ok _ _ _ h
+      obtain ⟨ts, h2, h⟩ := bind_ok _ _ _ h
+      obtain ⟨ds, h3, h⟩ := bind_ok _ _ _ h
+      obtain ⟨_, hC, h⟩ := bind_ok _ _ _ h
+      obtain ⟨ro, h4, h⟩ := bind_ok _ _ _ h
+      rw [hdir] at h3
+      simp only [List.append_nil, h3, List.mapM_nil, pure, Except.pure, hB, h1, h2, hC, h4, List.any_nil]
+      simpa [referencedAdditional, pure, Except.pure, failIf] using h
+  · intro h
+    unfold extendSchemaPublic at h
+    rw [collect_lax_self live doc hT hD] at h
+    simp only [bind, Except.bind, List.isEmpty_nil, Bool.and_true, hcomm] at h
+    unfold extendSchema
+    simp only []
+    split at h
+    · rename_i hs
+      simp only [hs, if_true]; exact h
+    · rename_i hs
+      simp only [hs, if_false]
+      simp only [List.append_nil, List.mapM_nil, pure, Except.pure] at h
+      split at h
+      · cases h
+      · rename_i ds h3
+        split at h
+        · cases h
+        · rename_i u hB
+          split at h
+          · cases h
+          · rename_i c h1
+            split at h
+            · cases h
+            · rename_i ts h2
+              split at h
+              · cases h
+              · rename_i u2 hC
+                split at h
+                · cases h
+                · rename_i ro h4
+                  rw [← hdir] at h3
+                  simp only [bind, Except.bind, hB, h1, h2, h3, hC, h4]
+                  simpa [referencedAdditional, pure, Except.pure, failIf] using h
+
+/-- non-vacuity of `extendSchema_is_public`: `type Query { a: Int }` + two extension blocks, against the schema of the
+    definition alone: the hypotheses hold and both sides return a schema (with the fields a, b, c) -/
+def liveQ : Live := { types := [{ kind := .object, name := "Query", fields := [{ name := "a", type := .named "Int" }] }],
+                      directives := [], roots := { query := some "Query" } }
+example : (∀ t ∈ typeDefs twoExt, liveQ.hasType t.name = true) ∧ (∀ d ∈ dirDefs twoExt, liveQ.hasDirective d.name = true) := by
+  constructor <;> decide
+example : ((extendSchemaPublic (typeDefs twoExt) (directiveDefs twoExt) liveQ twoExt false).toOption.map
+    fun l => l.types.map fun t => t.fields.map (·.name)) = some [["a", "b", "c"]] := by decide
+
 /-! ### evaluated instances (non-vacuity): `extend_schema(build(A), B)` is `build(A ++ B)` -/
 
 def exA : Doc := [.type exQuery, .type { kind := .enum, name := "E", values := [{ name := "A" }] },
